@@ -33,6 +33,9 @@ class FakeSock(object):
     def settimeout(self, t):
         self.timeout = t
 
+    def gettimeout(self):
+        return self.timeout
+
     def sendto(self, data, addr):
         data = bytes(data)
         self.sent.append(data)
@@ -44,6 +47,11 @@ class FakeSock(object):
         return len(data)
 
     def recvfrom(self, bufsize):
+        if self.timeout == 0:
+            # non-blocking read (Rmcp._drain_socket, fixes/C04-3.diff, discards what an EARLIER request left in the
+            # socket before a request is sent): the scripted events are what arrives AFTER the request, so there is
+            # nothing to discard - nothing is consumed, nothing is logged
+            raise BlockingIOError(11, 'Resource temporarily unavailable')
         if not self.queue:
             self.log.append(('timeout',))
             raise socket.timeout('timed out')
